@@ -22,6 +22,7 @@ import (
 	"net/http"
 	"net/url"
 	"os"
+	"path"
 	"path/filepath"
 	"regexp"
 	"sort"
@@ -1212,6 +1213,12 @@ func getLoginDestination(r *http.Request) string {
 			strings.ContainsFunc(inboundLoginDestination, func(r rune) bool {
 				return r < 0x20 || r == 0x7f
 			}) {
+			loginDestination = profilePath
+		}
+		// http.Redirect cleans the path of a relative destination, which
+		// turns "/./\host" into "/\host".
+		cleanedPath, _, _ := strings.Cut(inboundLoginDestination, "?")
+		if strings.HasPrefix(path.Clean(cleanedPath), "/\\") {
 			loginDestination = profilePath
 		}
 	}
